@@ -289,8 +289,12 @@ def main():
     coqchk = None
     if tier == "thorough" and ok and not os.environ.get("VERIF_NO_COQCHK"):
         mod = "ELA." + meta.get("props_file", "props/%s.v" % pid)[:-2].replace("/", ".")
-        with Lock(".coq.lock"):
-            rc, out, dt = sh(["coqchk", "-silent", "-o", "-Q", COQ, "ELA", mod], cwd=COQ, timeout=3000)
+        chk = os.path.join(work, "chk")
+        shutil.rmtree(chk, ignore_errors=True)
+        with Lock(".coq.lock"):   # copy the compiled files under the lock, re-check the copy without it
+            sh(["rsync", "-a", "--include=*/", "--include=*.vo", "--exclude=*", COQ + "/", chk + "/"])
+        rc, out, dt = sh(["coqchk", "-silent", "-o", "-Q", chk, "ELA", mod], cwd=chk, timeout=3000)
+        shutil.rmtree(chk, ignore_errors=True)
         log.write("== coqchk rc=%d %.1fs\n%s\n" % (rc, dt, out[-3000:]))
         coqchk = {"rc": rc, "wall_s": round(dt, 1), "tail": out[-1200:]}
         if rc not in (0, 124):
